@@ -451,3 +451,64 @@ func init() {
 		mutant{Name: "routine-read-from-the-ancestor-frame", Prop: "C19", File: "interp/debugger.go", Old: "\tf.debug.g = dbg.routineOf(f.anc)\n", New: "\tf.debug.g = f.anc.debug.g\n", Rule: "R19.15", Key: "Debugger.enterCall/ancestor-debug-data-not-assumed"},
 	)
 }
+
+func init() {
+	addMutants(
+		// D113-D117 reverted
+		mutant{Name: "untyped-nil-converted-to-a-basic-type", Prop: "C12", File: "interp/typecheck.go", Old: "\tcase isNumber(ttyp) || isString(ttyp) || isBoolean(ttyp):\n\t\tif n.typ.isNil() {\n\t\t\treturn convErr\n\t\t}\n", New: "\tcase isNumber(ttyp) || isString(ttyp) || isBoolean(ttyp):\n", Rule: "R12.26", Key: "typecheck.convertUntyped/case:isBoolean|isNumber|isString/untyped-nil-considered"},
+		mutant{Name: "operand-conversion-errors-dropped-before-the-comparison", Prop: "C12", File: "interp/typecheck.go", Old: "\t\tif err0 != nil {\n\t\t\treturn err0\n\t\t}\n\t\tif err1 != nil {\n\t\t\treturn err1\n\t\t}\n\t\treturn check.comparison(n)\n", New: "\t\t_, _ = err0, err1\n\t\treturn check.comparison(n)\n", Rule: "R12.27", Key: "typecheck.binaryExpr/conversion#1/error-returned-before-the-comparison"},
+		mutant{Name: "operand-conversion-errors-discarded", Prop: "C12", File: "interp/typecheck.go", Old: "\terr0 := check.convertUntyped(c0, c1.typ)\n\terr1 := check.convertUntyped(c1, c0.typ)\n", New: "\t_ = check.convertUntyped(c0, c1.typ)\n\t_ = check.convertUntyped(c1, c0.typ)\n", Also: [][3]string{{"interp/typecheck.go", "\t\tif err0 != nil {\n\t\t\treturn err0\n\t\t}\n\t\tif err1 != nil {\n\t\t\treturn err1\n\t\t}\n", ""}}, Rule: "R12.3", Key: "typecheck.binaryExpr/discard:typecheck.convertUntyped"},
+		mutant{Name: "second-operand-conversion-error-not-tested", Prop: "C12", File: "interp/typecheck.go", Old: "\t\tif err1 != nil {\n\t\t\treturn err1\n\t\t}\n\t\treturn check.comparison(n)\n", New: "\t\t_ = err1\n\t\treturn check.comparison(n)\n", Rule: "R12.27", Key: "typecheck.binaryExpr/conversion#2/error-returned-before-the-comparison"},
+		mutant{Name: "return-constant-not-checked-for-representability", Prop: "C12", File: "interp/cfg.go", Old: "\t\t\t\t} else if rt := typ.TypeOf(); c.typ.untyped && isNumber(rt) {\n\t\t\t\t\t// An untyped constant operand must be representable in the result type.\n\t\t\t\t\tif err = check.representable(c, rt); err != nil {\n\t\t\t\t\t\treturn\n\t\t\t\t\t}\n\t\t\t\t}\n", New: "\t\t\t\t}\n", Rule: "R12.28", Key: "cfg/case:returnStmt/constant-operands-representable"},
+		mutant{Name: "non-function-callee-not-rejected", Prop: "C12", File: "interp/cfg.go", Old: "\t\t\t\tif c0.typ == nil || !isFunc(c0.typ) {\n\t\t\t\t\terr = c0.cfgErrorf(\"invalid operation: cannot call non-function %s\", c0.ident)\n\t\t\t\t\tbreak\n\t\t\t\t}\n", New: "", Rule: "R12.29", Key: "cfg/case:callExpr/default/callee-is-a-function"},
+		mutant{Name: "multi-valued-source-of-a-single-assignment", Prop: "C12", File: "interp/cfg.go", Old: "\t\t\t\t\t\tif k := ft.numOut(); k != 1 {\n\t\t\t\t\t\t\terr = src.cfgErrorf(\"assignment mismatch: 1 variable but call returns %d values\", k)\n\t\t\t\t\t\t\tbreak\n\t\t\t\t\t\t}\n", New: "\t\t\t\t\t\t_ = ft\n", Rule: "R12.30", Key: "cfg/case:assignStmt/single-valued-source"},
+		mutant{Name: "benign-callee-test-on-the-source-type", Prop: "C12", File: "interp/cfg.go", Old: "\t\t\t\tif c0.typ == nil || !isFunc(c0.typ) {\n", New: "\t\t\t\tif t := c0.typ; t == nil || !(isFuncSrc(t) || isFunc(t)) {\n", Benign: true},
+		mutant{Name: "benign-nil-test-hoisted-in-the-case-condition", Prop: "C12", File: "interp/typecheck.go", Old: "\tcase isNumber(ttyp) || isString(ttyp) || isBoolean(ttyp):\n\t\tif n.typ.isNil() {\n\t\t\treturn convErr\n\t\t}\n", New: "\tcase n.typ.isNil() && (isNumber(ttyp) || isString(ttyp) || isBoolean(ttyp)):\n\t\treturn convErr\n\tcase isNumber(ttyp) || isString(ttyp) || isBoolean(ttyp):\n", Benign: true},
+		mutant{Name: "benign-conversion-errors-returned-in-init-form", Prop: "C12", File: "interp/typecheck.go", Old: "\t\tif err0 != nil {\n\t\t\treturn err0\n\t\t}\n\t\tif err1 != nil {\n\t\t\treturn err1\n\t\t}\n\t\treturn check.comparison(n)\n", New: "\t\tif err0 != nil || err1 != nil {\n\t\t\tif err0 != nil {\n\t\t\t\treturn err0\n\t\t\t}\n\t\t\treturn err1\n\t\t}\n\t\treturn check.comparison(n)\n", Benign: true},
+	)
+}
+
+func init() {
+	addMutants(
+		// D118-D120 reverted
+		mutant{Name: "tagless-switch-conditions-not-checked-boolean", Prop: "C12", File: "interp/cfg.go", Old: "\t\t\t\t\t\t\tif !isBool(cond.typ) {\n\t\t\t\t\t\t\t\terr = cond.cfgErrorf(\"non-bool used as case condition\")\n\t\t\t\t\t\t\t\treturn\n\t\t\t\t\t\t\t}\n", New: "", Rule: "R12.5", Key: "cfg/case:switchIfStmt/cond-is-bool"},
+		mutant{Name: "select-clauses-do-not-record-the-break-target", Prop: "C01", File: "interp/cfg.go", Old: "\t\t\tsc = sc.pushBloc()\n\t\t\tsc.loop = n.anc.anc // a break leaves the select statement\n\t\t\tdeclareLabels(sc, n)\n\t\t\tif len(n.child) > 0 && n.child[0].action == aAssign {\n", New: "\t\t\tsc = sc.pushBloc()\n\t\t\tdeclareLabels(sc, n)\n\t\t\tif len(n.child) > 0 && n.child[0].action == aAssign {\n", Rule: "R01.37", Key: "cfg/selectStmt/records-itself-as-the-target-of-break"},
+		mutant{Name: "break-target-not-tested", Prop: "C12", File: "interp/cfg.go", Old: "\t\t\t\tif sc.loop == nil {\n\t\t\t\t\terr = n.cfgErrorf(\"break is not in a loop, switch, or select\")\n\t\t\t\t\tbreak\n\t\t\t\t}\n", New: "", Rule: "R12.31", Key: "cfg/case:breakStmt/target-tested"},
+		mutant{Name: "continue-target-not-tested", Prop: "C01", File: "interp/cfg.go", Old: "\t\t\t\tif sc.loopRestart == nil {\n\t\t\t\t\terr = n.cfgErrorf(\"continue is not in a loop\")\n\t\t\t\t\tbreak\n\t\t\t\t}\n", New: "", Rule: "R01.37", Key: "cfg/case:continueStmt/target-tested"},
+		mutant{Name: "loop-state-inherited-by-function-literals", Prop: "C12", File: "interp/scope.go", Old: "\tif !indirect {\n\t\tsc.loop, sc.loopRestart = s.loop, s.loopRestart\n\t}\n", New: "\tsc.loop, sc.loopRestart = s.loop, s.loopRestart\n", Rule: "R12.31", Key: "scope.push/loop-copy#1/not-across-functions"},
+		mutant{Name: "benign-select-records-itself-with-its-own-scope", Prop: "C01", File: "interp/cfg.go", Old: "\t\t\tsc = sc.pushBloc()\n\t\t\tsc.loop = n.anc.anc // a break leaves the select statement\n\t\t\tdeclareLabels(sc, n)\n\t\t\tif len(n.child) > 0 && n.child[0].action == aAssign {\n", New: "\t\t\tsc = sc.pushBloc()\n\t\t\tsel := n.anc.anc\n\t\t\tsc.loop = sel\n\t\t\tdeclareLabels(sc, n)\n\t\t\tif len(n.child) > 0 && n.child[0].action == aAssign {\n", Benign: true},
+	)
+}
+
+func init() {
+	addMutants(
+		// D121 reverted
+		mutant{Name: "typed-constant-conversion-not-checked", Prop: "C12", File: "interp/typecheck.go", Old: "\t\t} else if !n.typ.untyped && isNumber(n.typ.TypeOf()) && isNumber(typ.TypeOf()) {\n\t\t\t// A typed numeric constant: its value must be representable in the target type.\n\t\t\tc = constantOf(n.rval)\n\t\t}\n", New: "\t\t}\n", Rule: "R12.32", Key: "typecheck.conversion/representability#1/typed-constants-included"},
+		mutant{Name: "typed-constant-conversion-not-checked-c03", Prop: "C03", File: "interp/typecheck.go", Old: "\t\t} else if !n.typ.untyped && isNumber(n.typ.TypeOf()) && isNumber(typ.TypeOf()) {\n\t\t\t// A typed numeric constant: its value must be representable in the target type.\n\t\t\tc = constantOf(n.rval)\n\t\t}\n", New: "\t\t}\n", Rule: "R03.22", Key: "typecheck.conversion/representability#1/typed-constants-included"},
+	)
+}
+
+func init() {
+	addMutants(
+		// D122 reverted
+		mutant{Name: "negative-constant-index-accepted", Prop: "C12", File: "interp/typecheck.go", Old: "\tif !n.rval.IsValid() {\n\t\treturn nil\n\t}\n\n\tif vInt(n.rval) < 0 {\n\t\treturn n.cfgErrorf(\"invalid argument: index %d must not be negative\", vInt(n.rval))\n\t}\n\n\tif max < 1 {\n\t\treturn nil\n\t}\n", New: "\tif !n.rval.IsValid() || max < 1 {\n\t\treturn nil\n\t}\n", Rule: "R12.33", Key: "typecheck.index/constant-index-not-negative"},
+		mutant{Name: "negative-index-test-after-the-unbounded-exit", Prop: "C12", File: "interp/typecheck.go", Old: "\tif vInt(n.rval) < 0 {\n\t\treturn n.cfgErrorf(\"invalid argument: index %d must not be negative\", vInt(n.rval))\n\t}\n\n\tif max < 1 {\n\t\treturn nil\n\t}\n", New: "\tif max < 1 {\n\t\treturn nil\n\t}\n\n\tif vInt(n.rval) < 0 {\n\t\treturn n.cfgErrorf(\"invalid argument: index %d must not be negative\", vInt(n.rval))\n\t}\n", Rule: "R12.33", Key: "typecheck.index/constant-index-not-negative"},
+	)
+}
+
+func init() {
+	addMutants(
+		// D123 reverted, one sibling at a time
+		mutant{Name: "string-element-assignable", Prop: "C12", File: "interp/cfg.go", Old: "\t\t\t\tif isStringElem(dest) {\n\t\t\t\t\terr = dest.cfgErrorf(\"cannot assign to an element of a string (strings are immutable)\")\n\t\t\t\t\tbreak\n\t\t\t\t}\n", New: "", Rule: "R12.34", Key: "cfg/case:assignStmt/string-element-not-a-destination"},
+		mutant{Name: "string-element-incrementable", Prop: "C12", File: "interp/cfg.go", Old: "\t\t\tif isStringElem(n.child[0]) {\n\t\t\t\terr = n.cfgErrorf(\"cannot assign to an element of a string (strings are immutable)\")\n\t\t\t\tbreak\n\t\t\t}\n", New: "", Rule: "R12.34", Key: "cfg/case:incDecStmt/string-element-not-a-destination"},
+	)
+}
+
+func init() {
+	addMutants(
+		// round-8 seeds (simplified)
+		mutant{Name: "first-token-guessed-from-the-leading-word", Prop: "C11", File: "interp/ast.go", Old: "func (interp *Interpreter) firstToken(src string) token.Token {\n\tvar s scanner.Scanner\n", New: "func (interp *Interpreter) firstToken(src string) token.Token {\n\tif w := strings.TrimLeft(src, \" \\t\\r\\n\"); w != \"\" && w[0] >= 'a' && w[0] <= 'z' {\n\t\tfor _, tok := range [...]token.Token{token.PACKAGE, token.CONST, token.FUNC, token.IMPORT, token.TYPE, token.VAR} {\n\t\t\tif strings.HasPrefix(w, tok.String()) {\n\t\t\t\treturn tok\n\t\t\t}\n\t\t}\n\t\treturn token.IDENT\n\t}\n\tvar s scanner.Scanner\n", Rule: "R11.15", Key: "Interpreter.firstToken/token-delivered-by-the-scanner"},
+		mutant{Name: "benign-first-token-scanner-in-a-local", Prop: "C11", File: "interp/ast.go", Old: "\t_, tok, _ := s.Scan()\n\treturn tok\n}\n\nfunc ignoreError", New: "\t_, first, _ := s.Scan()\n\treturn first\n}\n\nfunc ignoreError", Benign: true},
+		mutant{Name: "function-bodies-followed-only-for-initialisers-with-a-call", Prop: "C15", File: "interp/cfg.go", Old: "\t\t\tcase sym.kind == funcSym && sym.node != nil && sym.node.kind == funcDecl && !seen[sym.node]:\n", New: "\t\t\tcase calls && sym.kind == funcSym && sym.node != nil && sym.node.kind == funcDecl && !seen[sym.node]:\n", Also: [][3]string{{"interp/cfg.go", "func getVarDependencies(nod *node, sc *scope) (deps []*node) {\n", "func getVarDependencies(nod *node, sc *scope) (deps []*node) {\n\tcalls := false\n\tnod.Walk(func(n *node) bool {\n\t\tcalls = calls || n.kind == callExpr\n\t\treturn !calls\n\t}, nil)\n"}}, Rule: "R15.16", Key: "getVarDependencies/descent#3/whatever-the-shape-of-the-initialiser"},
+	)
+}
